@@ -188,7 +188,8 @@ def run_case(case, acc, order):
     spec = make_spec(cfg, case['fill'])
     extra = [('temp_wh.dat', b'\x00' * 64)] if cfg['temp_wh'] else []
     res = ac.run_convert(spec=spec, label=cfg['label'], factor=cfg['factor'], extra_files=extra,
-                         twice=cfg.get('twice', False))
+                         twice=cfg.get('twice', False),
+                         out_variant=sum(1 for a, v in AXES if cfg[a] != v[0]) + len(cfg['label']))
     acc.state()
     ndev = sum(1 for a, v in AXES if cfg[a] != v[0])
     acc.step(ndev >= 1, 'convert:%d-deviations' % ndev)
